@@ -38,3 +38,19 @@ func EmitLines(n int) []byte {
 	}
 	return b
 }
+
+// EmitPatternUTF8 is at most n bytes of text whose characters take one to four bytes each (whole
+// characters only), so that every way of cutting the stream into pieces cuts through characters
+// (kept in sync with cmd/emit/main.go).
+func EmitPatternUTF8(n int) []byte {
+	unit := []rune("a\u00e9\u263a\u6f22\U0001F600\n")
+	var b []byte
+	for i := 0; ; i++ {
+		c := string(unit[i%len(unit)])
+		if len(b)+len(c) > n {
+			break
+		}
+		b = append(b, c...)
+	}
+	return b
+}
